@@ -176,6 +176,7 @@ pub(crate) fn repair_snapshots<S: IndexedFull>(
     let mut state = RepairState::new(opts, repo.index());
     let modifier = TreeModifier::new(be, repo.index(), config_file, dry_run)?;
 
+    let mut modified_snaps = Vec::new();
     for mut snap in snapshots {
         let snap_id = snap.id;
         info!("processing snapshot {snap_id}");
@@ -207,14 +208,21 @@ pub(crate) fn repair_snapshots<S: IndexedFull>(
                 if dry_run {
                     info!("would have modified snapshot {snap_id}.");
                 } else {
-                    let new_id = be.save_file(&snap)?;
-                    info!("saved modified snapshot as {new_id}.");
+                    // only save the snapshot once the repaired trees are written, see below
+                    modified_snaps.push(snap);
                 }
                 state.delete.push(snap_id);
             }
         }
     }
     modifier.finalize()?;
+
+    // save the modified snapshots after the repaired trees and their index have been written,
+    // so that an interruption never leaves a snapshot pointing to trees which don't exist
+    for snap in modified_snaps {
+        let new_id = be.save_file(&snap)?;
+        info!("saved modified snapshot as {new_id}.");
+    }
 
     if opts.delete {
         if dry_run {
